@@ -1,6 +1,7 @@
 package main
 
 import (
+	"fmt"
 	"go/ast"
 	"go/token"
 	"strings"
@@ -13,6 +14,7 @@ func extractAll(p *pkg, f *facts) {
 	cacheFacts(p, f)
 	limiterFacts(p, f)
 	portmapFacts(p, f)
+	configFacts(p, f)
 }
 
 func (p *pkg) constNat(f *facts, leanName, goName string) {
@@ -373,4 +375,160 @@ func portmapFacts(p *pkg, f *facts) {
 	} else {
 		f.boolean("pmMismatchInfo", false, false, "func makeReply not found")
 	}
+}
+
+func configFacts(p *pkg, f *facts) {
+	fnName := "applyExportDefaults"
+	fn, shared := p.funcs[fnName]
+	if !shared {
+		fn = p.funcs["New"]
+	}
+	if fn == nil {
+		f.fail("cfgDefaults", "List (String × Nat)", "[]", "neither applyExportDefaults nor New found")
+		return
+	}
+	type kv struct {
+		k string
+		v int64
+	}
+	var num, tmo []kv
+	numcpu := false
+	ast.Inspect(fn.Body, func(n ast.Node) bool {
+		is, ok := n.(*ast.IfStmt)
+		if !ok {
+			return true
+		}
+		be, ok := is.Cond.(*ast.BinaryExpr)
+		if !ok || be.Op != token.LEQ || exprString(p.fset, be.Y) != "0" {
+			return true
+		}
+		lhs := exprString(p.fset, be.X)
+		if !strings.HasPrefix(lhs, "options.") {
+			return true
+		}
+		for _, s := range is.Body.List {
+			as, ok := s.(*ast.AssignStmt)
+			if !ok || len(as.Lhs) != 1 || exprString(p.fset, as.Lhs[0]) != lhs {
+				continue
+			}
+			name := strings.TrimPrefix(lhs, "options.")
+			if v, ok := p.evalDur(as.Rhs[0]); ok {
+				if strings.HasPrefix(name, "Timeouts.") {
+					tmo = append(tmo, kv{strings.TrimPrefix(name, "Timeouts."), v})
+				} else {
+					num = append(num, kv{name, v})
+				}
+			} else if strings.Contains(exprString(p.fset, as.Rhs[0]), "runtime.NumCPU() * 4") {
+				numcpu = true
+				num = append(num, kv{name, 0})
+			}
+		}
+		return true
+	})
+	render := func(l []kv) string {
+		parts := make([]string, len(l))
+		for i, x := range l {
+			parts[i] = fmt.Sprintf("(\"%s\", %d)", x.k, x.v)
+		}
+		return "[" + strings.Join(parts, ", ") + "]"
+	}
+	if len(num) == 0 {
+		f.fail("cfgDefaults", "List (String × Nat)", "[]", "no `if options.F <= 0 { options.F = V }` found")
+	} else {
+		f.raw("cfgDefaults", "List (String × Nat)", render(num), num)
+	}
+	if len(tmo) == 0 {
+		f.fail("cfgTimeoutDefaults", "List (String × Nat)", "[]", "no timeout defaults found")
+	} else {
+		f.raw("cfgTimeoutDefaults", "List (String × Nat)", render(tmo), tmo)
+	}
+	f.boolean("cfgMaxWorkersIsNumCPUx4", numcpu, true, "")
+	// the nil-Timeouts literal must carry the same values as the per-field defaults
+	litOK := true
+	ast.Inspect(fn.Body, func(n ast.Node) bool {
+		cl, ok := n.(*ast.CompositeLit)
+		if !ok || !strings.Contains(exprString(p.fset, cl.Type), "TimeoutConfig") {
+			return true
+		}
+		got := map[string]int64{}
+		for _, e := range cl.Elts {
+			if kvx, ok := e.(*ast.KeyValueExpr); ok {
+				if v, ok := p.evalDur(kvx.Value); ok {
+					got[exprString(p.fset, kvx.Key)] = v
+				}
+			}
+		}
+		for _, x := range tmo {
+			if got[x.k] != x.v {
+				litOK = false
+			}
+		}
+		if len(got) != len(tmo) {
+			litOK = false
+		}
+		return true
+	})
+	f.boolean("cfgNilTimeoutsSameDefaults", litOK, true, "")
+	// New uses the shared defaults function
+	newShared := false
+	if nf, ok := p.funcs["New"]; ok && shared {
+		newShared = p.countCalls(nf, "applyExportDefaults") > 0
+	}
+	f.boolean("cfgNewUsesSharedDefaults", newShared, true, "")
+	// UpdateTuningOptions: fn(&updated); <defaults>; n.tuning.Store(&updated)
+	tuDef := false
+	if uf, ok := p.funcs["AbsfsNFS.UpdateTuningOptions"]; ok {
+		var fnPos, defPos, storePos token.Pos
+		ast.Inspect(uf.Body, func(n ast.Node) bool {
+			ce, ok := n.(*ast.CallExpr)
+			if !ok {
+				return true
+			}
+			s := exprString(p.fset, ce)
+			switch {
+			case s == "fn(&updated)":
+				fnPos = ce.Pos()
+			case strings.Contains(s, "applyDefaults") || strings.Contains(s, "applyExportDefaults") || strings.Contains(s, "applyTuningDefaults"):
+				defPos = ce.Pos()
+			case strings.HasPrefix(s, "n.tuning.Store("):
+				storePos = ce.Pos()
+			}
+			return true
+		})
+		tuDef = fnPos != 0 && defPos != 0 && storePos != 0 && fnPos < defPos && defPos < storePos
+	}
+	f.boolean("cfgTuningUpdateAppliesDefaults", tuDef, true, "")
+	// UpdateExportOptions validates Squash before it applies anything
+	valFirst := false
+	if uf, ok := p.funcs["AbsfsNFS.UpdateExportOptions"]; ok {
+		var retPos, applyPos token.Pos
+		ast.Inspect(uf.Body, func(n ast.Node) bool {
+			switch t := n.(type) {
+			case *ast.IfStmt:
+				if strings.Contains(exprString(p.fset, t.Cond), "newOptions.Squash != currentPolicy.Squash") && retPos == 0 {
+					retPos = t.Pos()
+				}
+			case *ast.CallExpr:
+				if strings.HasPrefix(exprString(p.fset, t.Fun), "n.UpdateTuningOptions") && applyPos == 0 {
+					applyPos = t.Pos()
+				}
+			}
+			return true
+		})
+		valFirst = retPos != 0 && applyPos != 0 && retPos < applyPos
+	}
+	f.boolean("cfgUpdateValidatesFirst", valFirst, true, "")
+	// UpdatePolicyOptions defaults a nil RateLimitConfig
+	polDef := false
+	if uf, ok := p.funcs["AbsfsNFS.UpdatePolicyOptions"]; ok {
+		ast.Inspect(uf.Body, func(n ast.Node) bool {
+			if is, ok := n.(*ast.IfStmt); ok && exprString(p.fset, is.Cond) == "newPolicy.RateLimitConfig == nil" {
+				if strings.Contains(exprString(p.fset, is.Body), "DefaultRateLimiterConfig") {
+					polDef = true
+				}
+			}
+			return true
+		})
+	}
+	f.boolean("cfgPolicyDefaultsRateLimitConfig", polDef, true, "")
 }
